@@ -258,6 +258,40 @@ def membership_quorum(ctx, seed):
     return {"viol": viol, "cut": ok, "callbacks": res, "stages": stages}
 
 
+def api_calls_are_no_sign_of_life(ctx, seed, T=2.0):
+    """A leader cut off from the majority keeps being asked (locally) to add a node that already is a voter, to remove
+    a node that is none, to set the code version it already has: requests that are refused or change nothing.  None of
+    them is a message from a voter: the leader steps down within T."""
+    s = simmod.Sim(ctx.repo, ["n0", "n1", "n2"], conf={"dynamicMembershipChange": True, "leaderFallbackTimeout": T}, seed=seed)
+    s.connect_all()
+    L = s.elect()
+    if L is None:
+        return {"viol": [], "cut": False}
+    for _ in range(8):
+        for i in s.voters:
+            s.tick(i, 0.0625)
+        s.deliver_all()
+    peers = [i for i in s.voters if i != L]
+    for j in peers:
+        s.cut(L, j)
+    t_cut = s.now[L]
+    answers = []
+    o = s.objs[L]
+    k = 0
+    while s.now[L] < t_cut + T + 1.0:
+        if k % 8 == 0:
+            s._call(L, o.addNodeToCluster, s.Node(peers[(k // 8) % 2]), callback=lambda r, e: answers.append(("add", e)))
+            s._call(L, o.removeNodeFromCluster, s.Node("zz"), callback=lambda r, e: answers.append(("rem", e)))
+        s.tick(L, 0.0625)
+        k += 1
+    viol = []
+    if o._isLeader():
+        viol.append({"signature": "fallback:leader-not-stepping-down",
+                     "what": "node %s still reports itself leader %.2f s after it was cut off from both other voters (T=%.2f); meanwhile "
+                             "it only answered local requests: %s" % (L, s.now[L] - t_cut, T, sorted(set(answers)))})
+    return {"viol": viol, "cut": bool(answers), "answers": sorted(set(answers))}
+
+
 def stale_acks_after_reelection(ctx, seed):
     """A node that leads a second time and is then cut off from the majority must not acknowledge anything on the
     strength of what followers confirmed in its FIRST term of office (schedule of corr.core_directed:
@@ -337,6 +371,17 @@ def run(ctx):
                 v["_k"] = v["signature"] + ":membership"
                 v["replay"] = {"membership_quorum": sd}
                 viols.append(v)
+    cov["api_calls_while_cut_off"] = 0
+    for sd in range(ctx.seed, ctx.seed + 2):
+        r = api_calls_are_no_sign_of_life(ctx, sd)
+        done += 1
+        if r["cut"]:
+            cov["api_calls_while_cut_off"] += 1
+        for v in r["viol"]:
+            if "api" not in [x.get("_k") for x in viols]:
+                v["_k"] = "api"
+                v["replay"] = {"api_calls": sd}
+                viols.append(v)
     cov["stale_acks_after_reelection"] = 0
     for sd in range(ctx.seed, ctx.seed + 2):
         r = stale_acks_after_reelection(ctx, sd)
@@ -360,6 +405,9 @@ def run(ctx):
 
 
 def replay(ctx, violation):
+    if "api_calls" in violation.get("replay", {}):
+        r = api_calls_are_no_sign_of_life(ctx, violation["replay"]["api_calls"])
+        return {"violated": bool(r["viol"]), "violations": r["viol"][:5]}
     if "stale_acks_after_reelection" in violation.get("replay", {}):
         r = stale_acks_after_reelection(ctx, violation["replay"]["stale_acks_after_reelection"])
         return {"violated": bool(r["viol"]), "violations": r["viol"][:5]}
